@@ -73,13 +73,15 @@ SAlt ==
               <<Ln(HOrigin, "null")>>,
               <<Ln(HOrigin, "https://a.example:8443")>>,
               <<LnE(HOrigin)>> >>,
-   cfg |-> << [mode |-> "handler", sel |-> "keep", preset |-> <<>>],
-              [mode |-> "server",  sel |-> "keep", preset |-> <<>>],
-              [mode |-> "server",  sel |-> "none", preset |-> <<>>],
-              [mode |-> "server",  sel |-> "chat", preset |-> <<>>],
-              [mode |-> "reject",  sel |-> "keep", preset |-> <<>>],
-              [mode |-> "server",  sel |-> "keep", preset |-> <<"chat">>],
-              [mode |-> "server",  sel |-> "chat", preset |-> <<"chat">>] >>,
+   cfg |-> << [mode |-> "handler", sel |-> "keep", preset |-> <<>>, hdr |-> FALSE],
+              [mode |-> "server",  sel |-> "keep", preset |-> <<>>, hdr |-> FALSE],
+              [mode |-> "server",  sel |-> "none", preset |-> <<>>, hdr |-> FALSE],
+              [mode |-> "server",  sel |-> "chat", preset |-> <<>>, hdr |-> FALSE],
+              [mode |-> "reject",  sel |-> "keep", preset |-> <<>>, hdr |-> FALSE],
+              [mode |-> "server",  sel |-> "keep", preset |-> <<"chat">>, hdr |-> FALSE],
+              [mode |-> "server",  sel |-> "chat", preset |-> <<"chat">>, hdr |-> FALSE],
+              \* Server.Config.Header: an extra field, and attempts to override the mandatory ones
+              [mode |-> "server",  sel |-> "keep", preset |-> <<>>, hdr |-> TRUE] >>,
    p   |-> << <<>>,
               <<Ln(HProto, "chat")>>,
               <<LnL(HProto, "chat, superchat", <<S("chat"), S("superchat")>>)>>,
